@@ -232,6 +232,7 @@ func (in *Interp) nonlin(name string, lo, hi int64, deps []Lin, def func(r *rend
 		v.deps = append(v.deps, varsOf(in.p.resLin(d))...)
 	}
 	v.def = def
+	v.defLo, v.defHi = lo, hi
 	in.p.depVar[v.id] = true
 	return linV(v.id)
 }
@@ -620,6 +621,10 @@ func (in *Interp) callFunction(fn *ssa.Function, args []Value, fv []Value) Value
 	if fn.Pkg != nil && fn.Pkg.Pkg.Path() == in.eng.rtPath {
 		return in.rtCall(fn, args)
 	}
+	if fn.Pkg != nil && fn.Name() == "Sleep" && fn.Pkg.Pkg.Path() == in.eng.modPath+"/zzverif/faketime" {
+		in.fakeSleep(fn, args[0])
+		return nil
+	}
 	if fn.Blocks == nil {
 		in.unsupported("call to function without body %s", name)
 	}
@@ -650,9 +655,13 @@ func (in *Interp) callFunction(fn *ssa.Function, args []Value, fv []Value) Value
 
 func (in *Interp) run(fr *Frame) Value {
 	b := fr.fn.Blocks[0]
+	bound := in.eng.cfg.unwind
+	if in.eng.isHarnessFn(fr.fn) {
+		bound = 100000 // harness loops are bounded by construction (concrete skeleton parameters)
+	}
 	for {
 		fr.visits[b.Index]++
-		if fr.visits[b.Index] > in.eng.cfg.unwind {
+		if fr.visits[b.Index] > bound {
 			in.p.abort("unwind", fmt.Sprintf("loop bound %d exceeded in %s block %d", in.eng.cfg.unwind, fr.fn.String(), b.Index))
 		}
 		var next *ssa.BasicBlock
@@ -1601,4 +1610,23 @@ func (in *Interp) findMethod(t types.Type, pkg *types.Package, name string) *ssa
 		return nil
 	}
 	return in.eng.prog.MethodValue(sel)
+}
+
+// fakeSleep blocks the goroutine until the harness-controlled clock has advanced far enough.
+func (in *Interp) fakeSleep(fn *ssa.Function, d Value) {
+	g := fn.Pkg.Var("clock")
+	cell := in.global(g)
+	now := in.asLin(cell.v)
+	wake := in.p.resLin(now.add(in.asLin(d)))
+	in.p.sched.wait(in, "sleep", func() bool {
+		cur := in.p.resLin(in.asLin(cell.v))
+		diff := in.p.resLin(wake.sub(cur))
+		if diff.isConst() {
+			return diff.c <= 0
+		}
+		// symbolic instants: decide without forking inside the scheduler (conservative: still asleep
+		// unless the interval proves the wake-up time has been reached)
+		_, hi := in.p.interval(diff)
+		return hi <= 0
+	})
 }
